@@ -80,6 +80,10 @@ Accepts(kws, query, hdr) == GoodSelections(kws, query, hdr) # {}
 (* C03, numeric suffixes: one entry per numeric keyword, in keyword order *)
 RECURSIVE DigitsValue(_)
 DigitsValue(ds) == IF ds = <<>> THEN 0 ELSE 10 * DigitsValue(SubSeq(ds, 1, Len(ds) - 1)) + (ds[Len(ds)] - 48)
+(* a suffix of ten or more digits need not fit the 32-bit slot: its value is not constrained (BigSuffix = "any"), *)
+(* acceptance and the other suffixes are                                                                        *)
+BigSuffix == 0 - 2
+SuffixValue(ds) == IF Len(ds) > 9 THEN BigSuffix ELSE DigitsValue(ds)
 NumIdx(kws) == SortedSeq({j \in 1..Len(kws) : kws[j].num})
 NumbersOf(kws, ms, sel, default) ==
   LET ni == NumIdx(kws) IN
@@ -87,7 +91,7 @@ NumbersOf(kws, ms, sel, default) ==
      LET pos == {i \in 1..Len(sel) : sel[i] = ni[t]} IN
      IF pos = {} THEN default                                      \* keyword skipped
      ELSE LET ds == Spells(ms[CHOOSE i \in pos : TRUE], kws[ni[t]])[2] IN
-          IF ds = <<>> THEN default ELSE DigitsValue(ds)]          \* suffix left out / given
+          IF ds = <<>> THEN default ELSE SuffixValue(ds)]          \* suffix left out / given
 NumberVectors(kws, query, hdr, default) ==
   {NumbersOf(kws, Mnemonics(hdr), sel, default) : sel \in GoodSelections(kws, query, hdr)}
 Numbers(kws, query, hdr, default) ==      \* defined for accepted headers; <<>> otherwise
@@ -134,7 +138,7 @@ MatchAlgo(kws, query, hdr, default) ==
                            LET pos == {x \in 1..Len(w.taken) : w.taken[x][1] = ni[t]} IN
                            IF pos = {} THEN default
                            ELSE LET ds == w.taken[CHOOSE x \in pos : TRUE][2] IN
-                                IF ds = <<>> THEN default ELSE DigitsValue(ds)]]
+                                IF ds = <<>> THEN default ELSE SuffixValue(ds)]]
 
 -----------------------------------------------------------------------------
 (* pattern text <-> keyword list *)
